@@ -111,6 +111,7 @@ pub fn run(rep: &'static Report) {
         });
     }
     cli_level(rep);
+    short_count_sinks(rep);
     rep.extra("production_file_edits", json!({"file_len":file.len(),"bit_flips":bytes.len()*8,"truncations":truncs.len(),"complete": rep.tier == Tier::Thorough}));
     // unique graph states are distinct byte strings by construction; minted words likewise
     rep.add_distinct(rep.states.load(Ordering::Relaxed));
@@ -118,6 +119,61 @@ pub fn run(rep: &'static Report) {
     rep.sample(json!({"graph":"key","init":"A","path":["Trunc(198)"],"meaning":"truncation exactly at the end of chunk 1","expect":"reject"}));
     rep.sample(json!({"graph":"key","init":"A","path":["HdrField(A2, enc_payload)"],"meaning":"handshake field of another authentic file to the same recipient spliced in","expect":"reject"}));
     rep.set_exhaustive(true);
+}
+
+/// "Decryption succeeds only with output identical to the complete plaintext" also when the plaintext sink accepts fewer
+/// bytes than offered and the source returns fewer than requested: every schedule with <= 1 short read and <= 2 short
+/// writes, for every authentic tiny stream (default chunking and 1-byte chunks) and a production file.
+fn short_count_sinks(rep: &Report) {
+    use crate::env::{explore, Budget, Menu, ReadMode};
+    let seed = rep.seed;
+    let key = derive32(seed, "c03-sw-key");
+    let execs = AtomicU64::new(0);
+    let mut items: Vec<(Subject, Vec<u8>, Vec<u8>)> = vec![];
+    for cs in [2u32, 3] {
+        for l in 0..=(2 * cs as usize + 1) {
+            let p = plaintext(seed ^ 0x3d, l);
+            let mut chs: Vec<Vec<usize>> = vec![];
+            let mut c = vec![];
+            let mut rem = l;
+            while rem > 0 {
+                let n = rem.min(cs as usize);
+                c.push(n);
+                rem -= n;
+            }
+            if c.is_empty() {
+                c.push(0);
+            }
+            chs.push(c);
+            if l > 1 {
+                chs.push(vec![1; l]);
+            }
+            for ch in chs {
+                items.push((Subject::TinyDec { key: hx(&key), aad: String::new(), cs }, r::write_chunks(&key, &[], &p, &ch), p.clone()));
+            }
+        }
+    }
+    let (f, p, _s, rc) = prod_file(seed);
+    items.push((Subject::KeyDec { r: hx(&rc.sk), r_pub: hx(&rc.pk) }, f, p));
+    items.par_iter().for_each(|(sub, ct, p)| {
+        let menu = Menu::shorts(ReadMode::Bounded, true).no_record();
+        let st = explore(ct, menu, Budget::new(1, 2, 0), &|e| run_env(sub, e), &|env, res| {
+            let case = || crate::streams::Case::new(sub, ct, menu, env).json(json!({"what":"short-count-sink"}));
+            match res {
+                Res::Ok(_) => {
+                    if env.sink != *p {
+                        rep.violation("short-counts/accepted-with-incomplete-output", case(), format!("decryption returned Ok but delivered {} of {} plaintext bytes to a sink that accepts short counts", env.sink.len(), p.len()));
+                    }
+                }
+                other => rep.violation("short-counts/authentic-rejected", case(), format!("authentic stream rejected under short reads/writes: {}", other.brief())),
+            }
+        })
+        .unwrap_or_else(|e| crate::report::machinery(&e));
+        execs.fetch_add(st.executions, Ordering::Relaxed);
+        rep.nontrivial(&[b"short-count-", &ct[..ct.len().min(64)]].concat());
+    });
+    rep.eval(execs.load(Ordering::Relaxed));
+    rep.extra("short_count_sink_executions", json!(execs.load(Ordering::Relaxed)));
 }
 
 /// `kestrel decrypt` / `password decrypt` on authentic and edited files, to fresh and to pre-existing output paths and to stdout:
@@ -165,31 +221,45 @@ fn cli_level(rep: &Report) {
             ("first-chunk-dropped", [file[..h].to_vec(), file[rec2..].to_vec()].concat(), false),
         ]
     };
-    let mut jobs: Vec<(String, Vec<u8>, bool, bool, u8)> = vec![];
+    // in_kind 0: FILE argument; 1: the file arrives on a stdin pipe; 2: the FILE argument is a named pipe
+    let mut jobs: Vec<(String, Vec<u8>, bool, bool, u8, u8)> = vec![];
     for (mode, file, h) in [("key", &f, 132usize), ("pass", &q, 36usize)] {
         for (en, bytes, ok) in edits(file, h) {
             for out_kind in 0..3u8 {
-                jobs.push((format!("{}/{}", mode, en), bytes.clone(), ok, mode == "key", out_kind));
+                for in_kind in 0..3u8 {
+                    jobs.push((format!("{}/{}", mode, en), bytes.clone(), ok, mode == "key", out_kind, in_kind));
+                }
             }
         }
     }
-    jobs.par_iter().for_each(|(name, bytes, should_accept, key_mode, out_kind)| {
+    jobs.par_iter().for_each(|(name, bytes, should_accept, key_mode, out_kind, in_kind)| {
         rep.eval(1);
-        rep.nontrivial(format!("cli-{}-{}", name, out_kind).as_bytes());
+        rep.nontrivial(format!("cli-{}-{}-{}", name, out_kind, in_kind).as_bytes());
         let attempt = || -> Result<(), String> {
             let sc = Scratch::new();
-            sc.write("in.ktl", bytes);
+            let feeder = if *in_kind == 2 { Some(proc::feed_fifo(sc.path("in.ktl"), bytes.clone())?) } else { None };
+            if *in_kind == 0 {
+                sc.write("in.ktl", bytes);
+            }
             sc.write("kr.txt", kr.as_bytes());
             if *out_kind == 1 {
                 sc.write("out.bin", &vec![b'Q'; 300_000]);
             }
-            let mut a: Vec<&str> = if *key_mode { vec!["decrypt", "in.ktl", "-t", "bob", "-k", "kr.txt", "--env-pass"] } else { vec!["password", "decrypt", "in.ktl", "--env-pass"] };
+            let mut a: Vec<&str> = if *key_mode { vec!["decrypt", "-t", "bob", "-k", "kr.txt", "--env-pass"] } else { vec!["password", "decrypt", "--env-pass"] };
+            if *in_kind != 1 {
+                a.push("in.ktl");
+            }
             if *out_kind != 2 {
                 a.extend_from_slice(&["-o", "out.bin"]);
             }
-            let out = proc::run(&Cmd::new(&a).env("KESTREL_PASSWORD", if *key_mode { "bobpw" } else { "filepw" }), &sc.0);
+            let mut cmd = Cmd::new(&a).env("KESTREL_PASSWORD", if *key_mode { "bobpw" } else { "filepw" });
+            if *in_kind == 1 {
+                cmd = cmd.stdin(bytes);
+            }
+            let out = proc::run(&cmd, &sc.0);
+            drop(feeder);
             out.well_behaved()?;
-            let wname = ["-o fresh path", "-o path that held a longer file", "stdout"][*out_kind as usize];
+            let wname = format!("{}, {}", ["input as FILE argument", "input on a stdin pipe", "FILE argument is a named pipe"][*in_kind as usize], ["-o fresh path", "-o path that held a longer file", "stdout"][*out_kind as usize]);
             if out.ok() {
                 let got = if *out_kind == 2 { out.stdout.clone() } else { sc.read("out.bin").unwrap_or_default() };
                 if !*should_accept {
@@ -205,7 +275,7 @@ fn cli_level(rep: &Report) {
         };
         if attempt().is_err() {
             if let Err(e) = attempt() {
-                rep.violation(&format!("cli/{}", if e.contains("not identical") { "accepted-with-different-output" } else if e.contains("edited file was accepted") { "edited-file-accepted" } else { "other" }), json!({"kind":"cli","name":name,"out":out_kind}), e);
+                rep.violation(&format!("cli/{}", if e.contains("not identical") { "accepted-with-different-output" } else if e.contains("edited file was accepted") { "edited-file-accepted" } else { "other" }), json!({"kind":"cli","name":name,"out":out_kind,"in":in_kind}), e);
             }
         }
     });
@@ -216,6 +286,11 @@ pub fn replay(rep: &'static Report, case: &Value) {
     if case["kind"] == "cli" {
         println!("  re-running the CLI-level part of C03");
         cli_level(rep);
+        return;
+    }
+    if case["what"] == "short-count-sink" {
+        println!("  re-running the short-count part of C03");
+        short_count_sinks(rep);
         return;
     }
     match case["kind"].as_str().unwrap_or("") {
